@@ -221,6 +221,22 @@ func scaleRecord(out io.Writer, args []string) error {
 			}
 			enc.Encode(e)
 		}
+		// the ticks API in between (clamping is off here): Ticks reads the scale, and what it read is still there
+		// afterwards - Min maps to 0 and Max to 1 as configured, also for a decreasing domain
+		func() {
+			defer func() { recover() }() // ticks of exotic domains are C17's business; here only the scale matters
+			switch t := s.(type) {
+			case *scale.Linear:
+				t.Ticks(scale.TickOptions{Max: 5})
+			case *scale.Log:
+				t.Ticks(scale.TickOptions{Max: 5})
+			}
+		}()
+		{
+			e := mk("Ends")
+			e.Y0, e.Y1 = mkfdy(s.Map(mn)), mkfdy(s.Map(mx))
+			enc.Encode(e)
+		}
 		// QQ with ONE scale object at both ends, clamped: still the composition Unmap(Map(x)) - out-of-domain points are pinned
 		// to a bound, a degenerate domain sends everything to Min, a Log scale gives NaN for zero and the wrong sign
 		ce := mk("SetClamp")
@@ -240,6 +256,49 @@ func scaleRecord(out io.Writer, args []string) error {
 			e.X, e.Z, e.Zc, e.W = mkfdy(x), mkfdy(zv), mkfdy(s.Unmap(s.Map(x))), mkfdy(width)
 			e.X2 = mkfdy(same.Unmap(zv))
 			enc.Encode(e)
+		}
+		// Nice (clamping is on): it may widen the domain, and that is all it changes - the scale is still clamped.  The
+		// model takes the new end points from the object and expects clamping as it was set
+		if mn != mx {
+			ok := true
+			func() {
+				defer func() {
+					if recover() != nil {
+						ok = false
+					}
+				}()
+				switch t := s.(type) {
+				case *scale.Linear:
+					t.Nice(scale.TickOptions{Max: 6})
+					mn, mx = t.Min, t.Max
+				case *scale.Log:
+					t.Nice(scale.TickOptions{Max: 6})
+					mn, mx = t.Min, t.Max
+				}
+			}()
+			if ok && mn != mx && !math.IsInf(mn, 0) && !math.IsInf(mx, 0) && !math.IsNaN(mn) && !math.IsNaN(mx) {
+				se := mk("SetScale")
+				se.Kind, se.Min, se.Max, se.Clamp = kind, mkfdy(mn), mkfdy(mx), 1
+				enc.Encode(se)
+				xs := []float64{mn, mx}
+				if kind == "lin" {
+					xs = append(xs, mn-3*(mx-mn), mx+2*(mx-mn), (mn+mx)/2)
+				} else {
+					xs = append(xs, mn/1000, mx*1000, mn*1000, mx/1000, math.Copysign(math.Sqrt(math.Abs(mn)*math.Abs(mx)), mn))
+				}
+				sortFloats(xs)
+				first, prev := 1, math.NaN()
+				for _, x := range xs {
+					if x == prev || math.IsInf(x, 0) || x == 0 {
+						continue
+					}
+					prev = x
+					e := mk("Sweep")
+					e.X, e.Y, e.First = mkfdy(x), mkfdy(s.Map(x)), first
+					first = 0
+					enc.Encode(e)
+				}
+			}
 		}
 	}
 	return nil
